@@ -366,7 +366,7 @@ class Survey:
 
         # Replace data with selected data.
         for key in survey['data'].keys():
-            survey['data'][key] = self.data[key].sel(**selection)
+            survey['data'][key] = self.data[key].sel(**selection).copy()
 
             # Check if there are any finite observed data.
             if remove_empty and key == 'observed':
